@@ -167,6 +167,9 @@ func (ex *Exec) exec(g *G, f *Frame, in ssa.Instruction) {
 	case *ssa.Send:
 		ex.send(g, f, x)
 		return
+	case *ssa.Select:
+		ex.selectOp(g, f, x)
+		return
 	case *ssa.MakeChan:
 		n := int(ex.concInt(ex.reg(f, x.Size), "make(chan) size"))
 		ex.nextCh++
